@@ -117,6 +117,9 @@ def eval_op(op: str) -> str:
             key = b"" if a[1] == "-" else bytes.fromhex(a[1])
             msg = b"" if a[2] == "-" else bytes.fromhex(a[2])
             return "ok " + hmac.new(key, msg, hashlib.sha256).hexdigest()
+        if k == "rfc6979_spec":
+            # the Lean specification is validated against the independent Python RFC 6979 of this file
+            return "ok %d" % rfc6979_ref(int(a[1]), int(a[2]), bytes.fromhex(a[3]))
         if k == "rfc6979n":
             from pycoin.ecdsa.rfc6979 import deterministic_generate_k
             return "ok %d" % deterministic_generate_k(int(a[1]), int(a[2]), int(a[3]))
@@ -133,6 +136,12 @@ def eval_op(op: str) -> str:
         if k == "ec_mul":
             # `int * Point` (Point.__rmul__ -> Curve.multiply of the active class)
             return "ok " + show_pt(int(a[3]) * _point(g, a[2]))
+        if k == "ec_mul_orderless":
+            # the same curve without an order (`Curve(p, a, b)`): the ladder runs on the scalar as given
+            from pycoin.ecdsa.Curve import Curve
+            c0 = Curve(g._p, g._a, g._b)
+            x, y = parse_pt(a[2])
+            return "ok " + show_pt(c0.multiply(c0.Point(x, y), int(a[3])))
         if k == "ec_rawmul":
             return "ok " + show_pt(g.raw_mul(int(a[2])))
         if k == "ec_blindmul":
@@ -221,6 +230,8 @@ def eval_op(op: str) -> str:
 # ------------------------------------------------------------------ worker client (harness side)
 
 _WORKERS: dict = {}
+WORKER_TIMEOUT_S = float(os.environ.get("VERIF_WORKER_TIMEOUT", "60"))
+_TIMEOUTS = 0
 
 
 def _spawn(cfg: str):
@@ -247,6 +258,15 @@ def call(op: str) -> str:
         w = _WORKERS[cfg] = _spawn(cfg)
     w.stdin.write(op + "\n")
     w.stdin.flush()
+    # an implementation call that does not come back (a retry loop that never ends) is reported as `err Timeout`
+    import select
+    global _TIMEOUTS
+    ready, _, _ = select.select([w.stdout], [], [], WORKER_TIMEOUT_S if _TIMEOUTS < 3 else 5.0)
+    if not ready:
+        _TIMEOUTS += 1
+        w.kill()
+        _WORKERS.pop(cfg, None)
+        return "err Timeout"
     ans = w.stdout.readline()
     if not ans:
         from lib import Infra
